@@ -20,6 +20,7 @@ import (
 	"github.com/ozontech/file.d/plugin/input/file"
 	"github.com/ozontech/file.d/zz_verifharness/core"
 	"github.com/ozontech/file.d/zz_verifharness/h1pipe"
+	"github.com/pierrec/lz4/v4"
 	"github.com/prometheus/client_golang/prometheus"
 	"verif/simrt"
 	"verif/simrt/simos"
@@ -46,6 +47,23 @@ type WCfg struct {
 	// the main file, Other[i] (if any) is appended to it. Its own lines are not checked; it is there because the
 	// workers' buffers are reused from one file to the next
 	Other map[int]core.Bin `json:"other_file_appends,omitempty"`
+	// Lz4: the file is an lz4 frame of the whole content, complete when file.d starts (lz4 files are not
+	// appended to). Offsets are positions in the decompressed content. With a resume offset the worker decodes
+	// and throws away most of the committed part and hands the rest of it to the pipeline once more (whose
+	// input plugin filters it by offset): calls up to the resume offset are therefore not checked
+	Lz4 bool `json:"lz4,omitempty"`
+}
+
+func lz4Frame(content []byte) []byte {
+	var buf bytes.Buffer
+	w := lz4.NewWriter(&buf)
+	if _, err := w.Write(content); err != nil {
+		panic(err)
+	}
+	if err := w.Close(); err != nil {
+		panic(err)
+	}
+	return buf.Bytes()
 }
 
 func (c *WCfg) SimCfg() *simrt.Config { return &c.Sim }
@@ -138,6 +156,15 @@ func (h *HW) Gen(rng *rand.Rand, tier, prop string) core.Cfg {
 	if core.Chance(rng, 0.25) && c.Initial > 0 {
 		c.ResumeAt = core.Between(rng, 1, 3)
 	}
+	if core.Chance(rng, 0.1) {
+		c.Lz4 = true
+		c.Initial = len(c.Chunks)
+		c.Other = nil
+		c.ResumeAt = 0
+		if core.Chance(rng, 0.7) {
+			c.ResumeAt = core.Between(rng, 1, nl)
+		}
+	}
 	return c
 }
 
@@ -175,6 +202,11 @@ func (h *HW) Shrink(cc core.Cfg) []core.Cfg {
 		d := clone()
 		d.ResumeAt = 0
 		out = append(out, d)
+		if c.ResumeAt > 1 {
+			d := clone()
+			d.ResumeAt--
+			out = append(out, d)
+		}
 	}
 	if c.Workers > 1 {
 		d := clone()
@@ -230,6 +262,12 @@ func (h *HW) Run(cc core.Cfg, sim *simrt.Sim) *core.Outcome {
 	cfg := cc.(*WCfg)
 	o := &core.Outcome{NonTrivial: map[string]bool{}, Probes: map[string]int{}}
 	rec := &recCtl{}
+	if cfg.Lz4 && !file.VerifTreatedAsLz4("x.lz4") {
+		// this machine's MIME tables give .lz4 another type: the plugin would read the frame as text
+		o.EndReason = "skipped"
+		o.Probes["lz4-not-recognised-on-this-machine"]++
+		return o
+	}
 	var mainSID uint64
 	done := false
 	var full []byte
@@ -277,13 +315,17 @@ func (h *HW) Run(cc core.Cfg, sim *simrt.Sim) *core.Outcome {
 		for i := 0; i < cfg.Initial && i < len(cfg.Chunks); i++ {
 			initial = append(initial, cfg.Chunks[i]...)
 		}
+		if cfg.Lz4 {
+			path = "/data/logs/x.lz4"
+			initial = lz4Frame(full)
+		}
 		fs.WriteFileDirect(path, initial)
 		mainSID = file.VerifSourceID(fs.Ino(path))
 		if resume > 0 {
 			ino := fs.Ino(path)
 			// the source id is derived from the inode exactly as the plugin does it
 			sid := file.VerifSourceID(ino)
-			fs.WriteFileDirect("/data/state/offsets.yaml", []byte(fmt.Sprintf("- file: %s\n  inode: %d\n  source_id: %d\n  streams:\n    not_set: %d\n", mnt+"/logs/x.log", ino, sid, ref[resume-1].end)))
+			fs.WriteFileDirect("/data/state/offsets.yaml", []byte(fmt.Sprintf("- file: %s\n  inode: %d\n  source_id: %d\n  streams:\n    not_set: %d\n", mnt+"/logs/"+path[len("/data/logs/"):], ino, sid, ref[resume-1].end)))
 		}
 		simrt.GoGroup("filed", func() {
 			static, err := fd.DefaultPluginRegistry.Get(pipeline.PluginKindInput, "file")
@@ -318,7 +360,7 @@ func (h *HW) Run(cc core.Cfg, sim *simrt.Sim) *core.Outcome {
 				Logger:              h1pipe.QuietLogger().Sugar(),
 			})
 		})
-		for i := cfg.Initial; i < len(cfg.Chunks); i++ {
+		for i := cfg.Initial; i < len(cfg.Chunks) && !cfg.Lz4; i++ {
 			if cfg.Pauses[i] > 0 {
 				simrt.Sleep(cfg.Pauses[i])
 			} else {
@@ -380,9 +422,24 @@ func (h *HW) Run(cc core.Cfg, sim *simrt.Sim) *core.Outcome {
 		}
 		rec.calls = mine
 	}
+	if cfg.Lz4 && resume > 0 {
+		// the committed part that is handed over again (from somewhere inside a line): the input plugin's business
+		var rest []inCall
+		for i, c := range rec.calls {
+			if c.off > ref[resume-1].end {
+				rest = rec.calls[i:]
+				break
+			}
+		}
+		o.Probes["lz4-calls-below-the-resume-offset"] += len(rec.calls) - len(rest)
+		rec.calls = rest
+	}
+	if cfg.Lz4 {
+		o.Probes["lz4-runs"]++
+	}
 	describe := func() string {
 		var sb strings.Builder
-		fmt.Fprintf(&sb, "content %q appended as %q (initial %d chunks), read buffer %d, max_event_size %d cut_off %v, resume after line %d; In calls:", full, cfg.Chunks, cfg.Initial, cfg.ReadBuf, cfg.MaxSize, cfg.CutOff, resume)
+		fmt.Fprintf(&sb, "content %q appended as %q (initial %d chunks, lz4 %v), read buffer %d, max_event_size %d cut_off %v, resume after line %d; In calls:", full, cfg.Chunks, cfg.Initial, cfg.Lz4, cfg.ReadBuf, cfg.MaxSize, cfg.CutOff, resume)
 		for _, c := range rec.calls {
 			fmt.Fprintf(&sb, " (%d,%q)", c.off, c.data)
 		}
@@ -439,6 +496,9 @@ func (h *HW) Run(cc core.Cfg, sim *simrt.Sim) *core.Outcome {
 		o.Violate("C06", "reread-without-truncation", "the file was never truncated, yet it was read in %d passes (each pass correct); %s", len(passes), describe())
 	}
 	o.NonTrivial["C06"] = len(ref) > 0 && (len(cfg.Chunks) > 1 || sim.Faults()["disk.shortread"] > 0)
+	if cfg.Lz4 {
+		o.NonTrivial["C06"] = len(ref) > 0
+	}
 	o.Summary = map[string]any{"bytes": len(full), "lines": len(ref), "appends": len(cfg.Chunks), "in_calls": len(rec.calls), "read_buffer": cfg.ReadBuf}
 	return o
 }
